@@ -33,6 +33,23 @@ CHECKS = {
         'spec_canonical_form s for all attribute-free, logical-type-free schemas is not proved, only checked',
    technique='Coq proof (bit-level linearity of the CRC step; vm_compute witnesses for the canonical form) + executable specification as differential oracle',
    design='DESIGN.md 6/C12'),
+ 'C15': dict(
+   text='PARTIAL by proof: the compression algorithms (miniz_oxide, snap, bzip2, liblzma, zstd, crc32fast) are external libraries '
+        'that no model here covers; they appear as Section variables of Model/CodecFrame.v. Proved, for every payload and every '
+        'block, is the code around them: a snappy block is the raw block followed by the big-endian CRC-32 of the uncompressed '
+        'data and round-trips (C15_snappy_roundtrip); any wrong checksum and any block shorter than a checksum is rejected '
+        '(C15_snappy_checksum_enforced); decompressing arbitrary bytes yields an error or data no larger than the allocation limit '
+        '- snappy bounds the announced length before allocating, the streaming decoders are capped (C15_output_bounded); the cap '
+        'does not break payloads within the limit (C15_capped_roundtrip); CRC-32 is specified bit by bit from the polynomial '
+        '(C15_crc32_check_value). The library hypotheses (decompress o compress = id, announced snappy length) are tested every run: '
+        'Codec::compress / decompress on empty, 1-byte, constant, text-like, random, 70 KiB and 300 KiB payloads x six codecs x '
+        'every level; reference decoders (zlib raw deflate, bz2, lzma, own raw-snappy decoder) read the library\'s output and the '
+        'library reads theirs; snappy trailers equal the model\'s CRC-32; flipped checksums rejected; mutated and random bytes '
+        'never panic; 4 MiB bombs are stopped by a 64 KiB limit while 60000-byte payloads pass.',
+   note='zstandard has no independent decoder in this sandbox: round trip and frame magic only. The round-trip law of each '
+        'compression library is an assumption of the theorems, validated by testing, not a theorem.',
+   technique='Coq proof of the framing / checksum / output-cap code with the compression libraries as Section variables; reference-codec differential check for the library laws',
+   design='DESIGN.md 6/C15'),
  'C18': dict(
    text='Theorems (Coq): header = C3 01 ++ LE CRC-64-AVRO (10 bytes); for EVERY history of writes through one '
         'writer (good values, rejected values, encode failures, failing sinks) the reusable buffer is the header '
